@@ -462,6 +462,9 @@ def seq_method(run, s, attr, args, kwargs, node):
 
 def dict_method(run, d, attr, args, kwargs, node):
     ty, t = d.ty, d.t
+    h2 = run.x.reg.stubs.get(("method2", ty.name, attr)) if attr != "update" else None
+    if h2 is not None:
+        return h2(run, d, args, kwargs, node)
     if attr == "get":
         k = run.coerce(args[0], ty.k)
         has = z3.Select(ty.has(t), k.t)
@@ -522,8 +525,11 @@ def dict_method(run, d, attr, args, kwargs, node):
         other = args[0]
         if isinstance(other, Val) and isinstance(other.ty, TOpt):
             other = ops.unopt(run, other, node)
-        if isinstance(other, Val) and isinstance(other.ty, TDict) and other.ty.k == ty.k and other.ty.v == ty.v and not ty.ordered:
-            # d.update(o): pointwise, `o` wins
+        if isinstance(other, Conc) and other.obj == ("emptydict",):
+            return NONE, None               # d.update({}) changes nothing
+        if isinstance(other, Val) and isinstance(other.ty, TDict) and other.ty.k == ty.k and other.ty.v == ty.v:
+            # d.update(o): pointwise, `o` wins.  For an ordered dict the resulting insertion ORDER is left unspecified
+            # (weaker than Python: old keys keep their place, new keys follow in o's order) - only the typing invariant holds
             kx = z3.FreshConst(ty.k.sort(), "uk")
             new = ty.fresh("updated")
             o = other.t
